@@ -12,6 +12,7 @@ success; a block is its submission number.  Traces are newest-event-first.
 import Hts.Lemmas.WriterLTSAcc
 import Hts.Lemmas.WriterLTSWitness
 import Hts.Lemmas.WriterLTSOwn
+import Hts.Lemmas.WriterLTSComp
 namespace Hts.Props.C12
 open Hts.Model.WriterLTS
 
@@ -56,9 +57,9 @@ theorem close_durable (hr : cfg.repaired = true) {tr : List Ev} {m : Nat} (h : R
 /-- Without faults, when everything has come to rest the delivered output is the sequential writer's:
     independent of the schedule, of the completion order of the compressors and of `wc`. -/
 theorem lts_output_deterministic (hr : cfg.repaired = true) (hnf : ∀ i, cfg.fault i = false)
-    (h : Reachable cfg s) (hidle : AllIdle s) :
+    (hcf : ∀ b, cfg.cfault b = false) (h : Reachable cfg s) (hidle : AllIdle s) :
     (s.out, s.eof) = sequentialWriter cfg.script := by
-  obtain ⟨h1, h2⟩ := output_of_idle hr hnf h hidle
+  obtain ⟨h1, h2⟩ := output_of_idle hr hnf hcf h hidle
   simp [sequentialWriter, h1, h2]
 
 /-- `bam.NewWriter` = `Write(header)` (completing `k` blocks), `Flush`, `Wait`: if that `Wait` — the third call to
@@ -72,6 +73,17 @@ theorem bam_header_durable (hr : cfg.repaired = true) {k : Nat} {rest : List Op}
   refine ⟨hm, ?_⟩
   rw [← hm]
   exact wait_durable_all hr h (by rw [htr]; simp)
+
+/-- The same with compression failures (`cfg.cfault b`: `writeBlock` of block `b` sets `c.err`), still without
+    I/O faults: at rest the delivered blocks are exactly the blocks before the first one whose compression fails
+    (all of them if none fails), and the EOF marker is written iff the script closes the writer and none fails —
+    independent of the schedule, of the completion order and of `wc`. -/
+theorem lts_output_with_compression_failures (hr : cfg.repaired = true) (hnf : ∀ i, cfg.fault i = false)
+    (h : Reachable cfg s) (hidle : AllIdle s) :
+    s.out = List.range (firstFail cfg.cfault (seqBlocks cfg.script false)) ∧
+    s.eof = (hasClose cfg.script &&
+      decide (firstFail cfg.cfault (seqBlocks cfg.script false) = seqBlocks cfg.script false)) :=
+  output_of_idle_cf hr hnf h hidle
 
 /-- Every compressor — its 64 KiB block buffer and its gzip output buffer — has at most one holder among the API
     goroutine (active compressor), the `waiting` channel, the `queue` channel (whose `writeBlock` goroutine fills
